@@ -33,6 +33,8 @@ REQ_CLASSES = {
     "late": ["late", "late", "late"], "frag1": ["frag1", "now"], "reset_ok": [["reset", 0.0], "now"],
     "senderr": ["now", "now"],
     "slow_ok": [["delay", 0.8]], "frag2_ok": [["frag2", 9, 0.3]],
+    # answered at once; a few stray bytes follow 0.5 T later, while the (kept-alive) socket is idle (the caller pauses 0.7 T)
+    "ok_latebad": [["nowjunk", 0.5]],
 }
 # classes whose script legitimately makes the library retransmit / reconnect
 RETRY_CLASSES = {"drop_ok", "exh", "garbage_ok", "closelate_ok", "close_ok", "late", "frag1", "reset_ok", "senderr"}
@@ -54,12 +56,14 @@ def scenario(transport, ka, T, R, actions):
             cur = []
         else:
             reg += 1
-            by_reg[reg] = [([x[0], x[1] * T] if (isinstance(x, list) and x[0] == "delay") else
+            by_reg[reg] = [([x[0], x[1] * T] if (isinstance(x, list) and x[0] in ("delay", "nowjunk")) else
                             ([x[0], x[1], x[2] * T] if (isinstance(x, list) and x[0] == "frag2") else x)) for x in REQ_CLASSES[a]]
             reg_class[reg] = a
             if a == "senderr":
                 cur.append(["arm_send_fault", errno.EHOSTUNREACH])
             cur.append(["read", reg, 2])
+            if a == "ok_latebad":
+                cur.append(["sleep", 0.7 * T])
     reg += 1
     by_reg[reg] = ["now"]
     cur.append(["read", reg, 2])          # healthy request: must succeed
@@ -130,7 +134,7 @@ def check_run(sc, run, part: Part):
             out.append((f"C10/{tr}/two-open-sockets", f"{ctx}: {q['live']} sockets open at a quiescent point"))
     # (3) keep-alive: consecutive successful requests reuse the transport
     if ka:
-        seq = [c for c in run.calls if c["step"][0] not in ("arm_send_fault",)]
+        seq = [c for c in run.calls if c["step"][0] not in ("arm_send_fault", "sleep")]
         for a, b in zip(seq, seq[1:]):
             if a["step"][0] == "read" and b["step"][0] == "read" and a["outcome"] == "ok" and b["outcome"] == "ok" \
                     and a["seg"] == b["seg"]:
